@@ -73,7 +73,7 @@ def replay_cases(recs):
     for r in recs:
         num, den = r["c2"]
         deg = r["deg"]
-        cls = "t=%d" % deg if deg >= 0 else ("t<0.1" if num * 400 > den * 399 else ("t>pi-0.1" if num * 400 < den else "generic"))
+        cls = "t=%d" % deg if deg >= 0 else "t=180" if num == 0 else "t=0" if num == den else ("t<0.1" if num * 400 > den * 399 else ("t>pi-0.1" if num * 400 < den else "generic"))
         check_pair(t, r["p"], r["q"], num, den, deg, cls)
         if len(t.samples) < 2:
             t.samples.append(r)
